@@ -29,9 +29,24 @@ type rinst struct {
 	returned int
 }
 
+// keyedAPI is the part of Keyed / KeyedRefCount the concurrent scenario drives.
+type keyedAPI interface {
+	SetContext(ctx context.Context, restart bool)
+	ClearContext()
+	GetKeys() []string
+	RemoveKey(key string) bool
+	RestartRoutine(key string, conds ...func(string, int) bool) (bool, bool)
+	ResetRoutine(key string, conds ...func(string, int) bool) (bool, bool)
+	RestartAllRoutines(conds ...func(string, int) bool) (int, int)
+	ResetAllRoutines(conds ...func(string, int) bool) (int, int)
+}
+
 type runWorld struct {
 	c       *core.Ctx
-	k       *keyed.Keyed[string, int]
+	k       keyedAPI
+	plain   *keyed.Keyed[string, int]
+	rcv     *keyed.KeyedRefCount[string, int]
+	refs    []*keyed.KeyedRef[string, int]
 	delay   int64
 	incOf   map[string]*incarnation // current incarnation per key (updated inside constructor calls, i.e. in lock order)
 	nInc    int
@@ -135,8 +150,15 @@ func (w *runWorld) keyDriver(id, nops int) {
 		}
 		switch {
 		case k < 5:
+			if w.rcv != nil {
+				c.Descf("driver %d: AddKeyRef(%q)", id, key)
+				ref, _, _ := w.rcv.AddKeyRef(key)
+				w.refs = append(w.refs, ref)
+				c.Pub() // references are released by whichever driver picks them
+				break
+			}
 			c.Descf("driver %d: SetKey(%q)", id, key)
-			w.k.SetKey(key, c.S.PlanP(500))
+			w.plain.SetKey(key, c.S.PlanP(500))
 		case k < 8:
 			before := w.incOf[key]
 			c.Descf("driver %d: RemoveKey(%q)", id, key)
@@ -145,6 +167,21 @@ func (w *runWorld) keyDriver(id, nops int) {
 				c.S.Count("probe:removed")
 				w.markDead(before, "RemoveKey returned true")
 			}
+		case k < 10 && w.rcv != nil:
+			// release a reference (possibly one taken by the other driver, possibly twice)
+			if len(w.refs) == 0 {
+				break
+			}
+			c.Sub()
+			i := c.S.Plan(len(w.refs))
+			ref := w.refs[i]
+			if !c.S.FaultP(300) {
+				w.refs = append(w.refs[:i], w.refs[i+1:]...)
+			} else {
+				c.S.Count("fault:double-release")
+			}
+			c.Descf("driver %d: KeyedRef.Release", id)
+			ref.Release()
 		case k < 10:
 			n := c.S.Plan(3)
 			var keys []string
@@ -156,7 +193,7 @@ func (w *runWorld) keyDriver(id, nops int) {
 				before[kk] = w.incOf[kk]
 			}
 			c.Descf("driver %d: SyncKeys(%v)", id, keys)
-			_, removed := w.k.SyncKeys(keys, c.S.PlanP(300))
+			_, removed := w.plain.SyncKeys(keys, c.S.PlanP(300))
 			if w.delay == 0 {
 				for _, kk := range removed {
 					if before[kk] != nil && w.incOf[kk] == before[kk] {
@@ -291,8 +328,14 @@ func runRun(c *core.Ctx) {
 	if c.S.PlanP(400) {
 		c.S.TimerEarlyPermille = 30
 	}
-	w.k = keyed.NewKeyed(w.ctor, opts...)
-	c.Descf("keyedrun: delay=%dms retry=%v timerEarly=%d", w.delay/1e6, retry, c.S.TimerEarlyPermille)
+	if c.S.PlanP(350) {
+		w.rcv = keyed.NewKeyedRefCount(w.ctor, opts...)
+		w.k = w.rcv
+	} else {
+		w.plain = keyed.NewKeyed(w.ctor, opts...)
+		w.k = w.plain
+	}
+	c.Descf("keyedrun: refcount=%v delay=%dms retry=%v timerEarly=%d", w.rcv != nil, w.delay/1e6, retry, c.S.TimerEarlyPermille)
 	maxops := 4
 	if c.Thorough {
 		maxops = 7
